@@ -844,11 +844,18 @@ class HelicityDecay(AmpDecay):
 
     def get_cg_matrix(self, out_sym=False):
         ls = self.get_ls_list()
-        return self._get_cg_matrix(
-            ls, out_sym=out_sym, helicity_inner_full=self.helicity_inner_full
-        )
+        # cached per instance: decays compare (and hash) by particle names only, so a cache shared
+        # between instances would hand the matrix of an earlier model to a same-named decay
+        key = (ls, out_sym, self.helicity_inner_full)
+        cache = self.__dict__.setdefault("_cached_cg_matrix", {})
+        if key not in cache:
+            cache[key] = self._get_cg_matrix(
+                ls,
+                out_sym=out_sym,
+                helicity_inner_full=self.helicity_inner_full,
+            )
+        return cache[key]
 
-    @functools.lru_cache()
     def _get_cg_matrix(
         self, ls, out_sym=False, helicity_inner_full=False
     ):  # CG factor inside H
